@@ -15,6 +15,8 @@ LEAN = os.path.join(ROOT, "lean")
 GEN = os.path.join(LEAN, "BW", "Generated")
 HARNESS = os.path.join(ROOT, "harness")
 BWH = os.path.join(BUILD, "bwh")
+# checks may run concurrently (seed sweeps next to single runs): each run has its own scratch directory
+SCRATCH = os.path.join(BUILD, "scratch" + os.environ.get("VERIF_SCRATCH", ""))
 DRIVER = os.path.join(LEAN, ".lake", "build", "bin", "bwdriver")
 ALLOWED_AXIOMS = {"propext", "Classical.choice", "Quot.sound"}
 FORBIDDEN = re.compile(r"\bsorry\b|\badmit\b|^\s*axiom\s|native_decide|bv_decide|implemented_by|\bunsafe\s|maxHeartbeats\s+0|@\[extern")
@@ -90,12 +92,15 @@ def build_harness(tags="verif", race=False):
     except OSError:
         pass
     out_bin = BWH + ("-race" if race else "")
-    cmd = ["go", "build", "-tags", tags, "-o", out_bin]
+    tmp_bin = out_bin + f".new{os.getpid()}"
+    cmd = ["go", "build", "-tags", tags, "-o", tmp_bin]
     if race:
         cmd.insert(2, "-race")
     cmd.append(".")
     with Lock("gobuild"):
         rc, out, _ = sh(cmd, cwd=HARNESS, env=go_env(), timeout=900)
+        if rc == 0:
+            os.replace(tmp_bin, out_bin)   # atomically: a concurrent run keeps executing the file it opened
     if rc != 0:
         raise TieBroken("harness does not build against /repo's working tree", out[-4000:])
     return out_bin
